@@ -313,6 +313,17 @@ func genBrd(r *Rand, tier string, emit func(string)) {
 		valid = append(valid, b)
 		e(b)
 	}
+	// context maps, several trees per category, up to 256 block types, block switches inside
+	// insert runs (synth_brotli_ctx.go)
+	nctx := 2500
+	if thorough {
+		nctx = 60000
+	}
+	for i := 0; i < nctx; i++ {
+		b := synthBrotliCtx(r)
+		valid = append(valid, b)
+		e(b)
+	}
 	// complex prefix codes written item by item (synth_brotli_complex.go): repeat runs and the
 	// end of the code space at, before and beyond the end of the alphabet, every HSKIP
 	for _, it := range complexVariants(r) {
